@@ -468,13 +468,14 @@ theorem onFrameBegin_Ext (s : S) (h : Hdr) : Ext s (onFrameBegin s h) := by
     · split <;> exact Ext.of_eq rfl rfl rfl rfl rfl rfl rfl
     · exact Ext.refl s
 
+theorem setUtf8_Ext (s : S) (p : Bytes) : Ext s (setUtf8 s p) := Ext.of_eq rfl rfl rfl rfl rfl rfl rfl
+
 theorem utf8Step_Ext (s : S) (p : Bytes) : Ext s (utf8Step s p).1 := by
   unfold utf8Step
   split
-  · dsimp only
-    split
-    · exact Ext.trans (by exact Ext.of_eq rfl rfl rfl rfl rfl rfl rfl) (violation_Ext _ _ (by decide))
-    · exact Ext.of_eq rfl rfl rfl rfl rfl rfl rfl
+  · split
+    · exact (setUtf8_Ext s p).trans (violation_Ext _ _ (by decide))
+    · exact setUtf8_Ext s p
   · exact Ext.refl s
 
 theorem onMessageFrameData_Ext (s : S) (p : Bytes) : Ext s (onMessageFrameData s p) := by
